@@ -144,6 +144,19 @@ func TranslateDir(srcDir, dstDir string, race bool, langVersion string) (*Report
 		if x.usesSim {
 			astutil.AddImport(fset, f, chansimPath)
 		}
+		// runtime.Gosched / GOMAXPROCS / NumCPU have been redirected: drop the import when nothing else uses it
+		usesRuntime := false
+		ast.Inspect(f, func(n ast.Node) bool {
+			if sel, ok := n.(*ast.SelectorExpr); ok {
+				if id, ok := sel.X.(*ast.Ident); ok && id.Name == "runtime" && id.Obj == nil {
+					usesRuntime = true
+				}
+			}
+			return true
+		})
+		if !usesRuntime {
+			astutil.DeleteImport(fset, f, "runtime")
+		}
 		var buf bytes.Buffer
 		f.Comments = nil // synthesised nodes have no positions; comments would be displaced
 		f.Doc = nil
@@ -260,7 +273,7 @@ func (x *xl) prepass(f *ast.File, race bool) {
 			if sel, ok := n.Fun.(*ast.SelectorExpr); ok {
 				if pk, ok := sel.X.(*ast.Ident); ok {
 					if pn, ok := x.info.Uses[pk].(*types.PkgName); ok && pn.Imported().Path() == "runtime" {
-						if sel.Sel.Name != "Gosched" {
+						if sel.Sel.Name != "Gosched" && sel.Sel.Name != "GOMAXPROCS" && sel.Sel.Name != "NumCPU" {
 							x.errorf(n.Pos(), "runtime.%s is not simulated", sel.Sel.Name)
 						}
 					}
@@ -456,9 +469,15 @@ func (x *xl) rewrite(f *ast.File) {
 				c.Replace(call(&ast.IndexExpr{X: sim("Make"), Index: ix.Index}, size))
 			default:
 				if sel, ok := n.Fun.(*ast.SelectorExpr); ok {
-					if pk, ok := sel.X.(*ast.Ident); ok && pk.Name == "runtime" && sel.Sel.Name == "Gosched" {
-						x.usesSim = true
-						n.Fun = sim("Yield")
+					if pk, ok := sel.X.(*ast.Ident); ok && pk.Name == "runtime" {
+						switch sel.Sel.Name {
+						case "Gosched":
+							x.usesSim = true
+							n.Fun = sim("Yield")
+						case "GOMAXPROCS", "NumCPU":
+							x.usesSim = true
+							n.Fun = sim(sel.Sel.Name)
+						}
 					}
 				}
 			}
@@ -554,6 +573,24 @@ func (x *xl) insertAfter(c *astutil.Cursor, ws []ast.Stmt, pos token.Pos) {
 		body := &ast.BlockStmt{List: append([]ast.Stmt{st}, ws...)}
 		c.Replace(&ast.ExprStmt{X: &ast.CallExpr{Fun: &ast.FuncLit{Type: &ast.FuncType{Params: &ast.FieldList{}}, Body: body}}})
 		return
+	}
+	if c.Index() < 0 && c.Name() == "Init" {
+		// the init statement of an if / for / switch must stay one simple statement. An assignment
+		// (not a definition: that would declare the variables inside the literal) or an inc/dec is
+		// wrapped like a post statement: func() { a, err = f(); W(&a) }()
+		wrappable := false
+		switch st := c.Node().(type) {
+		case *ast.AssignStmt:
+			wrappable = st.Tok != token.DEFINE
+		case *ast.IncDecStmt:
+			wrappable = true
+		}
+		if wrappable {
+			st := c.Node().(ast.Stmt)
+			body := &ast.BlockStmt{List: append([]ast.Stmt{st}, ws...)}
+			c.Replace(&ast.ExprStmt{X: &ast.CallExpr{Fun: &ast.FuncLit{Type: &ast.FuncType{Params: &ast.FieldList{}}, Body: body}}})
+			return
+		}
 	}
 	if c.Index() < 0 {
 		x.rep.Untracked = append(x.rep.Untracked, fmt.Sprintf("%s: write in a statement header (if/for/switch init or post)", x.site(pos)))
